@@ -67,6 +67,7 @@ struct vm_dev
     int self_stops; // runs the device ended by itself (a failing append answers a non-running state)
     int opens, closes, starts, stops, started; // started: between a successful start and stop
     int calls_in_run, appends_in_run, shape_calls_in_run;
+    int armed;    // the device's own last word was "armed": a set it accepted, or a stop; cleared by a start it refused, a rejected set, a failing append
     int acq;      // number of successful starts so far (1-based acquisition number while running)
     // camera
     uint64_t hw_id;
